@@ -18,10 +18,18 @@ def _val(v):
     return int(v) if float(v) == int(v) else None
 
 
+def _heap_proj(pd):
+    """the abstract heap: the (priority, key) pairs held, whatever else an entry carries (e.g. a tie-breaking sequence number)"""
+    out = []
+    for e in getattr(pd, "_heap", []):
+        v, k = e[0], e[-1]
+        out.append([_val(v), _key(k)])
+    return out
+
+
 def _snap(pd):
     items = [[_key(k), _val(v)] for k, v in dict.items(pd)]
-    heap = [[_val(v), _key(k)] for v, k in pd._heap]
-    return items, heap
+    return items, _heap_proj(pd)
 
 
 def install_wrappers():
@@ -125,7 +133,7 @@ def direct_histories(seed, count):
             except IndexError:
                 e["raised"] = True
             e["d"] = [[int(a), int(b)] for a, b in dict.items(pd)]
-            e["heap"] = [[int(a), int(b)] for a, b in pd._heap]
+            e["heap"] = _heap_proj(pd)
             steps.append(e)
         out.append({"src": "direct", "steps": steps})
     return out
